@@ -40,6 +40,9 @@ type c06Packet struct {
 type c06Case struct {
 	Routes []c06Route `json:"routes"`
 	Packet c06Packet  `json:"packet"`
+	// Pending: ids of IQ requests waiting for their response (Router.NewIQResultRoute) when the packet arrives. A result
+	// or error IQ with such an id belongs to that request alone; everything else is routed as if nothing were pending.
+	Pending []string `json:"pending,omitempty"`
 }
 
 var c06Payloads = map[string][2]string{ // key -> (namespace, xml)
@@ -96,6 +99,18 @@ func genC06(t *rapid.T) c06Case {
 		p.To = rapid.SampledFrom([]string{"", "me@x.org/r", "comp.x.org", "c@z.org"}).Draw(t, "to")
 		if p.Kind == "iq" {
 			p.Payload = rapid.SampledFrom(append([]string{"", "unknown"}, c06PayloadKeys...)).Draw(t, "payload")
+		}
+	}
+	if rapid.IntRange(0, 3).Draw(t, "pending") == 0 {
+		k := rapid.IntRange(1, 3).Draw(t, "npending")
+		for i := 0; i < k; i++ {
+			id := fmt.Sprintf("pend-%d", i)
+			// the packet's own id, unless it is an IQ request (what a request with the id of a pending request means is
+			// not documented)
+			if p.Id != "" && !(p.Kind == "iq" && (p.Type == "get" || p.Type == "set")) && rapid.Bool().Draw(t, "pendingHit") {
+				id = p.Id
+			}
+			c.Pending = append(c.Pending, id)
 		}
 	}
 	n := rapid.IntRange(0, 6).Draw(t, "nroutes")
@@ -295,8 +310,42 @@ func runC06(c c06Case) vh.Result {
 			}
 		}
 	}
+	ctx, cancel := context.WithCancel(context.Background())
+	defer cancel()
+	pending := map[string]chan stanza.IQ{}
+	for _, id := range c.Pending {
+		if _, dup := pending[id]; !dup {
+			pending[id] = router.NewIQResultRoute(ctx, id)
+		}
+	}
+	isResponse := c.Packet.Kind == "iq" && (c.Packet.Type == "result" || c.Packet.Type == "error")
+	_, awaited := pending[c.Packet.Id]
+	awaited = awaited && isResponse && c.Packet.Kind != "nonstanza"
+	if len(pending) > 0 {
+		res.Label("requests-pending")
+	}
+	if awaited {
+		// the response belongs to the pending request: no route sees it, nothing is sent
+		res.Label("response-to-pending-request")
+		want = -1
+	}
 	sender := &mockSender{}
 	xmpp.VerifRoute(router, sender, pkt)
+	for id, ch := range pending {
+		select {
+		case iq, open := <-ch:
+			switch {
+			case !(awaited && id == c.Packet.Id):
+				res.Fail("pending-request-disturbed", "request %q is pending; packet %s made its channel deliver %v (open %v)", id, elem, iq, open)
+			case !open || iq.Id != c.Packet.Id:
+				res.Fail("pending-response-wrong", "pending request %q: channel delivered %+v (open %v) for packet %s", id, iq, open, elem)
+			}
+		default:
+			if awaited && id == c.Packet.Id {
+				res.Fail("pending-response-not-delivered", "request %q is pending but response %s was not delivered on its channel", id, elem)
+			}
+		}
+	}
 
 	for i, n := range calls {
 		switch {
@@ -308,7 +357,11 @@ func runC06(c c06Case) vh.Result {
 	}
 	isRequest := c.Packet.Kind == "iq" && (c.Packet.Type == "get" || c.Packet.Type == "set")
 	nSent := len(sender.sent) + len(sender.raw) + len(sender.iqs)
-	if want < 0 && isRequest {
+	if awaited {
+		if nSent != 0 {
+			res.Fail("reply-to-awaited-response", "response %s to a pending request caused %d sends: %v %v", elem, nSent, sender.sent, sender.raw)
+		}
+	} else if want < 0 && isRequest {
 		if nSent != 1 || len(sender.sent) != 1 {
 			res.Fail("unhandled-iq-reply-count", "unhandled IQ %s: %d replies sent (Send %d, SendRaw %d, SendIQ %d), expected exactly one", elem, nSent, len(sender.sent), len(sender.raw), len(sender.iqs))
 		} else {
@@ -348,7 +401,7 @@ func runC06(c c06Case) vh.Result {
 
 var c06 = vh.Define(&vh.Def[c06Case]{
 	Property: "C06", Name: "router",
-	Rule: "route tables of 0-6 routes, each with any conjunction of Packet(name), StanzaType(types...), IQNamespaces(ns...) (names and types in mixed case, possibly empty lists) or no matcher, matchers biased towards the packet so that several routes accept it; packets = message / presence / IQ of every type (registered payload, unknown payload, none; client and component namespace) and non-stanza packets, produced by the library's own parser; oracle = reference router written from the package comment (index of the first accepting route; exactly that handler once; unhandled IQ get/set answered once with feature-not-implemented, same id, from/to swapped; nothing sent otherwise); IQs with an unknown payload are never paired with a namespace matcher naming that namespace (behaviour not documented); non-trivial = at least two routes accept the packet, or none does",
+	Rule: "route tables of 0-6 routes, each with any conjunction of Packet(name), StanzaType(types...), IQNamespaces(ns...) (names and types in mixed case, possibly empty lists) or no matcher, matchers biased towards the packet so that several routes accept it; packets = message / presence / IQ of every type (registered payload, unknown payload, none; client and component namespace) and non-stanza packets, in a quarter of the cases with 1-3 IQ requests pending on the router (ids foreign or equal to the packet's: only a result/error IQ with a pending id goes to that request - its channel gets it, no route and no reply - every other packet, same id or not, is routed as usual and disturbs no pending channel), produced by the library's own parser; oracle = reference router written from the package comment (index of the first accepting route; exactly that handler once; unhandled IQ get/set answered once with feature-not-implemented, same id, from/to swapped; nothing sent otherwise); IQs with an unknown payload are never paired with a namespace matcher naming that namespace (behaviour not documented); non-trivial = at least two routes accept the packet, or none does",
 	Quick: 50000, Thorough: 3000000,
 	Gen: genC06, Run: runC06,
 })
